@@ -13,6 +13,8 @@
      TimeIsSignerWeightedMedian  an accepted block's time is not the median weighted by the signers' power
      HashBindsHeader     two blocks with different header fields have the same hash
      Deterministic       the replicas disagree (state bytes, stored state, block hash, block id, verdicts)
+                         - incl. the nodes that apply every block through the crash-recovery path
+                         (Handshaker.ReplayBlocks from the stored ABCI responses, DiscardABCIResponses false/true)
      TransitionFn        the next state is not NextState(state, block, responses)
      StoredHistory       LoadValidators / LoadConsensusParams do not return what governed a height
      FitsLimits          a proposed block (or its part set) exceeds ConsensusParams.Block.MaxBytes      *)
@@ -65,7 +67,9 @@ StepMake(e) ==
       exp   == MakeBlock(st, b.txs, b.evidence, b.evBytes, b.lastCommit, e.req.proposer)
       ff    == FirstFailure(cx, b)
       valid == ff = "ok"
-      both  == e.accepted /\ e.acceptedB
+      recAll == \A i \in DOMAIN e.accR : e.accR[i].accepted
+      recNone == \A i \in DOMAIN e.accR : ~e.accR[i].accepted /\ e.accR[i].err = "time_notafter"
+      both  == e.accepted /\ e.acceptedB /\ recAll
       sizeClass == IF e.nLastVals > e.nVals THEN "lastvals_gt_vals" ELSE "other"
   IN /\ blk' = b /\ blkok' = valid /\ cx' = cx
      /\ drift' = drift
@@ -75,8 +79,10 @@ StepMake(e) ==
           \cup FailIf(e.err # ff, D("validateBlock failed at another check than the spec"))
      /\ viol' = viol
           \cup FailIf(~both, V("MadeBlocksValid",
-                               IF RoundingClass(st, e.req.votes) /\ e.err = "time_notafter" /\ e.errB = "time_notafter"
-                               THEN "median_rounding_odd_power" ELSE "refused:" \o e.err \o "/" \o e.errB))
+                               IF RoundingClass(st, e.req.votes) /\ e.err = "time_notafter" /\ e.errB = "time_notafter" /\ recNone
+                               THEN "median_rounding_odd_power"
+                               ELSE IF e.accepted /\ e.acceptedB THEN "refused_by_recovered_node"
+                               ELSE "refused:" \o e.err \o "/" \o e.errB))
           \cup FailIf(e.accepted # valid \/ e.acceptedB # valid,
                       V("AcceptIffValid", IF valid THEN "made_rejected_valid:" \o e.err ELSE "made_accepted_invalid:" \o ff))
           \cup FailIf(e.hashA # e.hashB \/ e.bid.hash # e.hashA, V("Deterministic", "block_hash_after_gossip"))
@@ -142,12 +148,19 @@ StepApply(e) ==
      /\ blk' = NoBlk /\ blkok' = FALSE
      /\ drift' = drift
           \cup FailIf(e.ok # expOK, D("ApplyBlock succeeded/failed unlike the spec"))
+          \cup UNION {FailIf(e.rec[i].ok /\ r.ok /\ e.rec[i].mode = "crash_replay"
+                             /\ e.rec[i].post # ApplyVia(st, blk, e.bid, e.resp, e.rec[i].variant).st,
+                             D("recovered state differs from ApplyVia of the spec: " \o e.rec[i].variant)) : i \in DOMAIN e.rec}
           \cup FailIf(valid /\ e.bb # BeginBlockInfo(st, blk, e.bid), D("BeginBlock/DeliverTx requests differ from the spec"))
      /\ viol' = viol
           \cup FailIf(e.sA # e.sB \/ e.ldA # e.sA \/ e.ldB # e.sB \/ e.bid # e.bidB \/ e.ok # e.okB \/ e.rqA # e.rqB,
                       V("Deterministic", IF e.sA # e.sB THEN "state_bytes" ELSE IF e.bid # e.bidB THEN "block_id"
                                          ELSE IF e.ok # e.okB THEN "apply_verdict"
                                          ELSE IF e.rqA # e.rqB THEN "abci_requests" ELSE "stored_state_bytes"))
+          \* NextStateSame on the observed nodes: live (A) vs replayed from the stored responses
+          \cup UNION {FailIf(e.ok /\ e.okB /\ (~e.rec[i].ok \/ e.rec[i].s # e.sA),
+                             V("Deterministic", "recovery_" \o e.rec[i].variant \o ":" \o
+                                                (IF ~e.rec[i].ok THEN "failed" ELSE FirstDiff(e.rec[i].post, post)))) : i \in DOMAIN e.rec}
           \cup FailIf(e.ok /\ ~valid, V("AcceptIffValid", "applied_invalid:" \o FirstFailure(cx, blk)))
           \cup FailIf(expOK /\ ~e.ok /\ e.panic # "", V("AcceptIffValid", "panic_applying_valid_block"))
           \cup FailIf(e.ok /\ r.ok /\ post # r.st, V("TransitionFn", FirstDiff(post, r.st)))
